@@ -145,6 +145,25 @@ pub const INJECTORS: &[Inj] = &[
         },
     },
     Inj {
+        name: "both-carriers-odd-query-algorithm",
+        stage: Stage::Carrier,
+        apply: |b, r| {
+            if b.ov.no_carrier {
+                return false;
+            }
+            // an Authorization header plus an X-Amz-Algorithm parameter whose value is not the supported one: the
+            // parameter is still a second carrier
+            b.ov.both_carriers = true;
+            let alg = r.pick(&["AWS4-HMAC-SHA512", "aws4-hmac-sha256", "", "HmacSHA256", "AWS4-HMAC-SHA256 "]).to_string();
+            if b.l.carrier == Carrier::Header {
+                b.ov.both_carriers_query_alg = Some(alg);
+            } else {
+                b.ov.algorithm = Some(alg);
+            }
+            true
+        },
+    },
+    Inj {
         name: "wrong-algorithm",
         stage: Stage::Algorithm,
         apply: |b, r| {
@@ -387,7 +406,7 @@ pub const INJECTORS: &[Inj] = &[
         name: "wrong-signature",
         stage: Stage::Signature,
         apply: |b, r| {
-            b.ov.signature = Some(match r.below(9) {
+            b.ov.signature = Some(match r.below(11) {
                 0 => "0".repeat(64),
                 1 => r.string_from("0123456789abcdef", 64),
                 2 => "invalid".to_string(),
@@ -397,7 +416,12 @@ pub const INJECTORS: &[Inj] = &[
                 5 => r.string_from("0123456789abcdef", 65),
                 6 => r.string_from("0123456789abcdef", 128),
                 7 => "f".to_string(),
-                _ => r.string_from("0123456789ABCDEFxyz-", 64),
+                8 => r.string_from("0123456789ABCDEFxyz-", 64),
+                _ => {
+                    // the correct signature in another letter case (set when rendering; the comparison is on bytes)
+                    b.ov.signature_case = Some(r.below(2) as u8);
+                    return true;
+                }
             });
             true
         },
